@@ -1,6 +1,6 @@
 use std::cell::RefCell;
 use std::collections::{BTreeMap, HashMap};
-use std::sync::Arc;
+use std::sync::{Arc, Mutex};
 
 use rayon::{ThreadPool, ThreadPoolBuilder};
 use tracing::warn;
@@ -28,6 +28,16 @@ pub struct ReaderSet {
 pub struct ReaderThreadPool {
     pool: Arc<ThreadPool>,
     caches: Arc<HashMap<BucketId, Arc<SegmentBlockCache>>>,
+    /// Probes for the background index flushes of segments sealed by this process.
+    unflushed_indexes: Arc<Mutex<Vec<FlushedProbe>>>,
+}
+
+struct FlushedProbe(Box<dyn FnMut() -> bool + Send>);
+
+impl std::fmt::Debug for FlushedProbe {
+    fn fmt(&self, f: &mut std::fmt::Formatter<'_>) -> std::fmt::Result {
+        f.write_str("FlushedProbe")
+    }
 }
 
 impl ReaderThreadPool {
@@ -53,6 +63,7 @@ impl ReaderThreadPool {
         let mut reader_pool = ReaderThreadPool {
             pool: Arc::new(pool),
             caches: Arc::new(HashMap::new()),
+            unflushed_indexes: Arc::new(Mutex::new(Vec::new())),
         };
 
         reader_pool.caches = Arc::new(
@@ -76,6 +87,13 @@ impl ReaderThreadPool {
 
     pub fn caches(&self) -> &Arc<HashMap<BucketId, Arc<SegmentBlockCache>>> {
         &self.caches
+    }
+
+    /// Whether the index files of every segment sealed by this process have been written.
+    pub fn indexes_flushed(&self) -> bool {
+        let mut unflushed = self.unflushed_indexes.lock().unwrap();
+        unflushed.retain_mut(|flushed| !(flushed.0)());
+        unflushed.is_empty()
     }
 
     pub fn get_cache(&self, bucket_id: BucketId) -> Option<&Arc<SegmentBlockCache>> {
@@ -134,6 +152,19 @@ impl ReaderThreadPool {
         stream_index: Option<&ClosedStreamIndex>,
     ) {
         let cache = self.caches.get(&bucket_segment_id.bucket_id).unwrap();
+        {
+            let mut unflushed = self.unflushed_indexes.lock().unwrap();
+            unflushed.retain_mut(|flushed| !(flushed.0)());
+            if let Some(index) = event_index {
+                unflushed.push(FlushedProbe(Box::new(index.flushed_probe())));
+            }
+            if let Some(index) = partition_index {
+                unflushed.push(FlushedProbe(Box::new(index.flushed_probe())));
+            }
+            if let Some(index) = stream_index {
+                unflushed.push(FlushedProbe(Box::new(index.flushed_probe())));
+            }
+        }
         self.pool.broadcast(|_| {
             let reader_set = ReaderSet {
                 reader: reader.try_clone().unwrap(),
